@@ -280,8 +280,14 @@ class ComponentLevel3( ComponentLevel2 ):
     def connect_by_name( this, other ):
       def recursive_connect( this_obj, other_obj ):
         if isinstance( this_obj, list ):
+          if not isinstance( other_obj, list ) or len( other_obj ) != len( this_obj ):
+            raise InvalidConnectionError("Cannot connect a list of {} elements to {} "
+              "during by-name connection of\n"
+              "          - {} (class {})\n"
+              "          - {} (class {})".format( len(this_obj),
+                f"a list of {len(other_obj)} elements" if isinstance( other_obj, list ) else other_obj,
+                repr(this), type(this), repr(other), type(other) ) )
           for i in range(len(this_obj)):
-            # TODO add error message if other_obj is not a list
             recursive_connect( this_obj[i], other_obj[i] )
         else:
           s._connect( other_obj, this_obj, internal=True )
@@ -304,6 +310,19 @@ class ComponentLevel3( ComponentLevel2 ):
               "          - {} (class {})\n"
               "          - {} (class {})".format( name, other, obj,
                 repr(this), type(this), repr(other), type(other) ) )
+
+      # The same the other way round: whichever interface is written first,
+      # a connectable member without a counterpart is an error
+      for name in sorted(other.__dict__):
+        if name[0] != '_' and not hasattr( this, name ):
+          obj = other.__dict__[ name ]
+          if isinstance( obj, Connectable ):
+            raise InvalidConnectionError("There is no \"{}\" field in {} "
+            "to connect to {} during by-name connection\n"
+            "Suggestion: check the implementation of \n"
+            "          - {} (class {})\n"
+            "          - {} (class {})".format( name, this, obj,
+              repr(other), type(other), repr(this), type(this) ) )
 
     if hasattr( o1, "connect" ):
       if not o1.connect( o2, s ): # o1.connect fail
